@@ -1155,3 +1155,243 @@ Proof.
     revert o Ho. apply Ref_P_last. unfold NQ. apply Ref_Q_pieces; [exact Hnew_ne|].
     unfold new. apply PiecesL_app; [exact Hpieces|]. apply PiecesL_Ref. now apply Ref_new_node.
 Qed.
+
+Lemma Partial_perm v a b : Permutation (ordering a) (ordering b) -> Partial v a -> Partial v b.
+Proof.
+  intros HP [HE HF]. split; intros H; [apply HE|apply HF]; unfold PureE, PureF in *;
+    eapply Permutation_Forall; [apply Permutation_sym; exact HP|exact H|apply Permutation_sym; exact HP|exact H].
+Qed.
+
+Lemma flat_nonempty_proper l : l <> [] -> Forall (fun c => proper c = true) l -> flat_map ordering l <> [].
+Proof.
+  intros Hne Hp. destruct l as [|c r]; [congruence|]. inversion Hp; subst. simpl. intros E.
+  apply app_eq_nil in E. destruct E as [E _]. now apply proper_leaves in E.
+Qed.
+
+(* the "else" branch of P.set_contiguous with two aligned partial children *)
+Lemma p_else_two v cs F E c0 c1 L0 L1 :
+  Permutation cs (F ++ E ++ [c0; c1]) -> In c0 cs -> Partial v c0 ->
+  Forall (fun c => proper c = true) F -> Forall (fun c => proper c = true) E ->
+  Forall (PureF v) F -> Forall (PureE v) E ->
+  Pattern false v L0 -> Forall (fun c => proper c = true) L0 -> L0 <> [] ->
+  Permutation (ordering c0) (flat_map ordering L0) -> PiecesL L0 [c0] ->
+  Pattern true v L1 -> Forall (fun c => proper c = true) L1 -> L1 <> [] ->
+  Permutation (ordering c1) (flat_map ordering L1) -> PiecesL L1 [c1] ->
+  CasePost v KP cs (E <> [])
+    (Node KP (E ++ [new_node KQ (L0 ++ match F with [] => [] | _ => [new_node KP F] end ++ L1)])) SPartU.
+Proof.
+  intros HP Hin0 Hpart0 HpF HpE HF HE (e0 & f0 & HE0 & HF0 & HL0) HpL0 Hne0 Hperm0 Hpc0
+         (e1 & f1 & HE1 & HF1 & HL1) HpL1 Hne1 Hperm1 Hpc1.
+  simpl in HL0, HL1. subst L0 L1.
+  set (fullp := match F with [] => [] | _ => [new_node KP F] end).
+  assert (Hfullp : Forall (fun c => proper c = true) fullp /\ Forall (PureF v) fullp /\
+                   flat_map ordering fullp = flat_map ordering F /\ PiecesL fullp (match F with [] => [] | _ => [Node KP F] end)).
+  { unfold fullp. destruct F as [|f F']; [repeat split; auto; constructor|].
+    assert (Hne : f :: F' <> []) by discriminate.
+    repeat split.
+    - constructor; [now apply proper_new_node|constructor].
+    - constructor; [now apply PureF_new_node|constructor].
+    - change (flat_map ordering [new_node KP (f :: F')]) with (ordering (new_node KP (f :: F')) ++ []).
+      now rewrite app_nil_r, ordering_new_node.
+    - intros o Ho. apply OrdL_one. apply OrdL_one in Ho. now apply Ref_new_node in Ho.
+    - intros o Ho. change (rev [new_node KP (f :: F')]) with [new_node KP (f :: F')] in Ho.
+      change (rev [Node KP (f :: F')]) with [Node KP (f :: F')].
+      apply OrdL_one. apply OrdL_one in Ho. now apply Ref_new_node in Ho. }
+  destruct Hfullp as (Hfp & HfF & Hford & Hfpieces).
+  set (new := (e0 ++ f0) ++ fullp ++ (f1 ++ e1)).
+  assert (Hlen : 2 <= length new).
+  { assert (H0 : 1 <= length (e0 ++ f0)) by (destruct (e0 ++ f0); [congruence|simpl; lia]).
+    assert (H1 : 1 <= length (f1 ++ e1)) by (destruct (f1 ++ e1); [congruence|simpl; lia]).
+    unfold new. rewrite (app_length (e0 ++ f0)), (app_length fullp). lia. }
+  assert (Hnewp : Forall (fun c => proper c = true) new)
+    by (unfold new; apply Forall_app; split; [exact HpL0|apply Forall_app; split; [exact Hfp|exact HpL1]]).
+  rewrite (new_node_many KQ new Hlen).
+  assert (HCF : CF v (Node KQ new)).
+  { unfold new. replace ((e0 ++ f0) ++ fullp ++ f1 ++ e1) with (e0 ++ (f0 ++ fullp ++ f1) ++ e1)
+      by (rewrite <- !app_assoc; reflexivity).
+    apply CF_QF; auto. repeat (apply Forall_app; split); auto. }
+  assert (HPermLeaves : Permutation (flat_map ordering cs) (ordering (Node KP (E ++ [Node KQ new])))).
+  { change (ordering (Node KP (E ++ [Node KQ new]))) with (flat_map ordering (E ++ [Node KQ new])).
+    rewrite flat_map_app.
+    change (flat_map ordering [Node KQ new]) with (flat_map ordering new ++ []). rewrite app_nil_r.
+    unfold new. rewrite (flat_map_app ordering (e0 ++ f0)), (flat_map_app ordering fullp), Hford.
+    etransitivity; [apply (flat_perm_3 F E [c0; c1]); exact HP|]. apply Permutation_app_head.
+    change (flat_map ordering [c0; c1]) with (ordering c0 ++ ordering c1 ++ []). rewrite app_nil_r.
+    rewrite <- app_assoc.
+    apply Permutation_app; [exact Hperm0|]. etransitivity; [apply Permutation_app_comm|].
+    apply Permutation_app_head. exact Hperm1. }
+  split; [|split; [|split; [|split]]].
+  - split.
+    + apply (CF_P v E (Node KQ new) []); [now rewrite app_nil_r|exact HCF].
+    + apply (Partial_perm v (Node KP cs)); [exact HPermLeaves|]. now apply (Partial_child v KP cs c0).
+  - split; [intros E0; apply app_eq_nil in E0; destruct E0; discriminate|].
+    apply Forall_app. split; [exact HpE|]. constructor; [|constructor]. apply proper_node_iff. auto.
+  - intros HEne. apply proper_node_iff. split.
+    + rewrite app_length. simpl. destruct E; [congruence|simpl; lia].
+    + apply Forall_app. split; [exact HpE|]. constructor; [|constructor]. apply proper_node_iff. auto.
+  - exact HPermLeaves.
+  - intros o Ho.
+    assert (Hbase : PiecesL new ([c0] ++ match F with [] => [] | _ => [Node KP F] end ++ [c1])).
+    { unfold new. apply PiecesL_app; [exact Hpc0|]. apply PiecesL_app; [exact Hfpieces|exact Hpc1]. }
+    assert (Ho2 : Ord (Node KP (E ++ [c0] ++ match F with [] => [] | _ => [Node KP F] end ++ [c1])) o).
+    { apply Ref_P_regroup. revert o Ho. apply Ref_P_last. rewrite <- (new_node_many KQ new Hlen).
+      apply Ref_Q_pieces; [|exact Hbase]. intros E0. rewrite E0 in Hlen. simpl in Hlen. lia. }
+    destruct F as [|f F'].
+    + simpl in Ho2. apply (Ord_P_perm (E ++ [c0; c1])); [|exact Ho2].
+      apply Permutation_sym. simpl in HP. exact HP.
+    + (* move the P-node of the full children to the end, dissolve it *)
+      apply (Ord_P_perm ((E ++ [c0; c1]) ++ (f :: F'))).
+      { apply Permutation_sym. etransitivity; [exact HP|]. apply Permutation_app_comm. }
+      apply Ord_P_group. apply (Ord_P_perm (E ++ [c0] ++ [Node KP (f :: F')] ++ [c1])); [|exact Ho2].
+      rewrite <- !app_assoc. apply Permutation_app_head. simpl. apply perm_skip. apply perm_swap.
+Qed.
+
+Lemma Forall2_len' {X Y} (R : X -> Y -> Prop) l1 l2 : Forall2 R l1 l2 -> length l1 = length l2.
+Proof. induction 1; simpl; congruence. Qed.
+
+Lemma SimpOK_PiecesL la v c L : SimpOK la v c L -> PiecesL L [c].
+Proof. intros (_ & _ & _ & H). now apply PiecesL_of_Pieces. Qed.
+
+Lemma SimpOK_nonempty la v c L : proper c = true -> SimpOK la v c L -> L <> [].
+Proof.
+  intros Hp (_ & _ & HP & _) E. subst L. simpl in HP. apply Permutation_sym, Permutation_nil in HP.
+  now apply proper_leaves in HP.
+Qed.
+
+Lemma CasePost_weaken v k cs (h h' : Prop) t' st : (h' -> h) -> CasePost v k cs h t' st -> CasePost v k cs h' t' st.
+Proof. intros Himp (H1 & H2 & H3 & H4 & H5). repeat split; auto. Qed.
+
+Lemma all_full_count v cs seq :
+  Forall2 (StOK v) cs seq -> Forall (fun c => proper c = true) cs -> Forall (PureF v) cs ->
+  count_st SFull seq = length seq.
+Proof.
+  induction 1 as [|c st cs seq Hc H IH]; intros Hp HF; [reflexivity|].
+  inversion Hp; subst. inversion HF; subst. rewrite count_st_cons.
+  rewrite (StOK_F v c st) by assumption. simpl. f_equal. now apply IH.
+Qed.
+
+(* P.set_contiguous, after the two passes over the children *)
+Theorem p_cases_post v cs seq t' st :
+  2 <= length cs -> Forall (fun c => proper c = true) cs -> Forall2 (StOK v) cs seq ->
+  p_cases v cs seq = Ok (t', st) ->
+  CasePost v KP cs (pick_st SEmpty cs seq <> [] \/ Forall (PureF v) cs) t' st.
+Proof.
+  intros Hn Hp HS Hres. unfold p_cases in Hres.
+  pose proof (Forall2_len' _ _ _ HS) as Hlen.
+  pose proof (pick_st_length _ SFull _ _ HS) as HlF. pose proof (pick_st_length _ SEmpty _ _ HS) as HlE.
+  pose proof (pick_st_length _ SPartA _ _ HS) as HlPA. pose proof (pick_st_length _ SPartU _ _ HS) as HlPU.
+  pose proof (pick_st_perm _ _ _ HS) as HPerm. pose proof (count_st_total seq) as Htot.
+  pose proof (StOK_pick_F _ _ _ HS) as HFF. pose proof (StOK_pick_E _ _ _ HS) as HEE.
+  pose proof (StOK_pick_PA _ _ _ HS) as HPA.
+  pose proof (pick_proper SFull cs seq Hp) as HpF. pose proof (pick_proper SEmpty cs seq Hp) as HpE.
+  pose proof (pick_proper SPartA cs seq Hp) as HpPA.
+  destruct (impossible _ _ _ _) eqn:Eimp; [discriminate|].
+  unfold impossible in Eimp. apply orb_false_iff in Eimp. destruct Eimp as [E1 E2]. apply Nat.ltb_ge in E1.
+  destruct (count_st SFull seq =? length cs) eqn:EF.
+  { (* all full *)
+    apply Nat.eqb_eq in EF. inversion Hres; subst. rewrite Hlen in EF.
+    pose proof (count_st_all _ SFull _ _ HS EF) as Hall. simpl in Hall.
+    split; [|split; [|split; [|split]]].
+    - now apply Pure_node_F.
+    - split; [destruct cs; [simpl in Hn; lia|discriminate]|exact Hp].
+    - intros _. now apply proper_node_iff.
+    - reflexivity.
+    - apply Ref_refl. }
+  destruct (count_st SEmpty seq =? length cs) eqn:EE.
+  { apply Nat.eqb_eq in EE. inversion Hres; subst. rewrite Hlen in EE.
+    pose proof (count_st_all _ SEmpty _ _ HS EE) as Hall. simpl in Hall.
+    split; [|split; [|split; [|split]]].
+    - now apply Pure_node_E.
+    - split; [destruct cs; [simpl in Hn; lia|discriminate]|exact Hp].
+    - intros _. now apply proper_node_iff.
+    - reflexivity.
+    - apply Ref_refl. }
+  apply Nat.eqb_neq in EF, EE.
+  destruct (count_st SPartU seq =? 1) eqn:EPU.
+  { (* one unaligned partial child, the others empty *)
+    apply Nat.eqb_eq in EPU. inversion Hres; subst.
+    rewrite EPU in E2. change (1 <=? 1) with true in E2. cbn [andb] in E2. apply negb_false_iff, Nat.eqb_eq in E2.
+    destruct (one_non_empty (StOK v) SPartU cs seq HS) as (es & c & es2 & -> & HE & Hc & _ & _);
+      [discriminate|lia|exact EPU|].
+    simpl in Hc. destruct Hc as [HcCF HcP]. simpl in HE.
+    split; [|split; [|split; [|split]]].
+    - split; [now apply CF_P|]. apply (Partial_child v KP _ c); [apply in_or_app; right; now left|exact HcP].
+    - split; [now destruct es|exact Hp].
+    - intros _. now apply proper_node_iff.
+    - reflexivity.
+    - apply Ref_refl. }
+  apply Nat.eqb_neq in EPU.
+  assert (HnoPU : count_st SPartU seq = 0).
+  { destruct (count_st SPartU seq) as [|k] eqn:EK; [reflexivity|]. change (1 <=? S k) with true in E2.
+    cbn [andb] in E2. apply negb_false_iff, Nat.eqb_eq in E2. lia. }
+  assert (HPUnil : pick_st SPartU cs seq = []) by (apply length_zero_nil; lia).
+  rewrite HPUnil, app_nil_r in HPerm.
+  destruct ((count_st SPartA seq =? 1) && (S (count_st SEmpty seq) =? length cs)) eqn:Ei.
+  { (* one aligned partial child, the others empty *)
+    apply andb_true_iff in Ei. destruct Ei as [Ei1 Ei2]. apply Nat.eqb_eq in Ei1, Ei2. inversion Hres; subst.
+    destruct (one_non_empty (StOK v) SPartA cs seq HS) as (es & c & es2 & -> & HE & Hc & HpkE & HpkA);
+      [discriminate|lia|exact Ei1|].
+    simpl in Hc. destruct Hc as [HcA HcP]. simpl in HE. rewrite HpkE, HpkA.
+    assert (HPm : Permutation (es ++ c :: es2) ((es ++ es2) ++ [c])).
+    { rewrite <- app_assoc. apply Permutation_app_head. apply Permutation_cons_append. }
+    assert (Hp' : Forall (fun c => proper c = true) ((es ++ es2) ++ [c])) by (eapply Permutation_Forall; eassumption).
+    split; [|split; [|split; [|split]]].
+    - split.
+      + apply (Al_PX false v (es ++ es2) c []); [now rewrite app_nil_r|exact HcA].
+      + apply (Partial_child v KP _ c); [apply in_or_app; right; now left|exact HcP].
+    - split; [intros E0; apply app_eq_nil in E0; destruct E0; discriminate|exact Hp'].
+    - intros _. apply proper_node_iff. split; [|exact Hp']. rewrite <- (Permutation_length HPm). exact Hn.
+    - simpl ordering. now apply flat_map_perm.
+    - intros o Ho. apply (Ord_P_perm ((es ++ es2) ++ [c])); [now apply Permutation_sym|exact Ho]. }
+  (* the "else" branch *)
+  apply andb_false_iff in Ei.
+  assert (HFne : count_st SPartA seq = 2 \/ pick_st SFull cs seq <> []).
+  { destruct (count_st SFull seq) as [|k] eqn:EK; [|right; intros E0; rewrite E0 in HlF; simpl in HlF; lia].
+    left. destruct Ei as [Ei|Ei]; [apply Nat.eqb_neq in Ei|apply Nat.eqb_neq in Ei]; lia. }
+  assert (HhasE : pick_st SEmpty cs seq <> [] \/ Forall (PureF v) cs -> pick_st SEmpty cs seq <> []).
+  { intros [H|H]; [exact H|]. exfalso. apply EF. rewrite Hlen. now apply (all_full_count v cs seq). }
+  apply (CasePost_weaken v KP cs (pick_st SEmpty cs seq <> [])); [exact HhasE|]. clear HhasE.
+  destruct (count_st SPartA seq <? 2) eqn:E2PA.
+  - (* at most one aligned partial child *)
+    apply Nat.ltb_lt in E2PA. destruct HFne as [HFne|HFne]; [lia|]. inversion Hres; subst. clear Hres.
+    destruct (pick_st SFull cs seq) as [|f F'] eqn:EFl; [congruence|]. rewrite <- EFl in *.
+    replace (match pick_st SFull cs seq with [] => [] | _ :: _ => [new_node KP (pick_st SFull cs seq)] end)
+      with [new_node KP (pick_st SFull cs seq)] by (rewrite EFl; reflexivity).
+    destruct (pick_st SPartA cs seq) as [|c [|c2 r]] eqn:EPA; [| |simpl in HlPA; lia].
+    + (* none *)
+      eapply (p_else_one v cs (pick_st SFull cs seq) (pick_st SEmpty cs seq) [] []); eauto.
+      * exists [], []. repeat split; constructor.
+      * apply PiecesL_refl.
+      * intros E0. exfalso. rewrite E0 in HlE. simpl in HlE, HlPA. lia.
+    + (* one *)
+      inversion HPA as [|? ? [HcA HcP] _]; subst. inversion HpPA as [|? ? Hpc _]; subst.
+      pose proof (simplify_spec false v c HcA Hpc) as HS0. simpl negb in HS0.
+      destruct HS0 as (HPat & HLp & HLperm & HLpieces).
+      eapply (p_else_one v cs (pick_st SFull cs seq) (pick_st SEmpty cs seq) [c] (simplify v true c)); eauto.
+      * simpl. now rewrite app_nil_r.
+      * now apply PiecesL_of_Pieces.
+      * intros _. split.
+        -- intros E0. rewrite E0 in HLperm. simpl in HLperm. apply Permutation_sym, Permutation_nil in HLperm.
+           now apply proper_leaves in HLperm.
+        -- intros Hall. destruct HcP as [_ HnF]. apply HnF. unfold PureF.
+           eapply Permutation_Forall; [apply Permutation_sym; exact HLperm|].
+           apply Forall_forall. intros s Hs. apply in_flat_map in Hs. destruct Hs as (x & Hx & Hs).
+           rewrite Forall_forall in Hall. specialize (Hall x Hx). unfold PureF in Hall.
+           rewrite Forall_forall in Hall. auto.
+  - (* two aligned partial children *)
+    apply Nat.ltb_ge in E2PA. inversion Hres; subst. clear Hres.
+    destruct (pick_st SPartA cs seq) as [|c0 [|c1 [|c2 r]]] eqn:EPA; simpl in HlPA; try lia.
+    inversion HPA as [|? ? [Hc0A Hc0P] HPA']; subst. inversion HPA' as [|? ? [Hc1A Hc1P] _]; subst.
+    inversion HpPA as [|? ? Hpc0 HpPA']; subst. inversion HpPA' as [|? ? Hpc1 _]; subst.
+    pose proof (simplify_spec false v c0 Hc0A Hpc0) as HS0. simpl negb in HS0.
+    assert (Hpc1r : proper (reverse c1) = true) by now rewrite proper_reverse.
+    pose proof (simplify_spec true v (reverse c1) (Al_reverse v c1 Hc1A) Hpc1r) as HS1. simpl negb in HS1.
+    simpl nth.
+    pose proof (SimpOK_nonempty _ _ _ _ Hpc0 HS0) as Hne0. pose proof (SimpOK_nonempty _ _ _ _ Hpc1r HS1) as Hne1.
+    pose proof (SimpOK_PiecesL _ _ _ _ HS0) as HP0. pose proof (SimpOK_PiecesL _ _ _ _ HS1) as HP1.
+    destruct HS0 as (HPat0 & HLp0 & HLperm0 & _). destruct HS1 as (HPat1 & HLp1 & HLperm1 & _).
+    eapply (p_else_two v cs (pick_st SFull cs seq) (pick_st SEmpty cs seq) c0 c1); eauto.
+    + apply (pick_st_incl SPartA cs seq). rewrite EPA. now left.
+    + rewrite ordering_reverse in HLperm1. etransitivity; [apply Permutation_rev|exact HLperm1].
+    + apply (PiecesL_trans _ [reverse c1]); [exact HP1|]. apply PiecesL_Ref. apply Ref_reverse.
+Qed.
